@@ -356,6 +356,13 @@ def series_strategy():
     })
 
 
+def hash_int(case):
+    """A stable integer derived from a case (cases of this clause carry no sub-seed)."""
+    import hashlib
+    import json
+    return int(hashlib.sha1(json.dumps(case, sort_keys=True).encode()).hexdigest()[:8], 16)
+
+
 def run_perturb(case, ctx):
     """d(perturb_pva(p, e), p) == e to first order (Series pairs), on a magnitude ladder."""
     from pyins import transform, sim
@@ -367,11 +374,15 @@ def run_perturb(case, ctx):
     if abs(p.pitch) + 2.5 >= 90:
         d[7] = -abs(d[7]) * np.sign(p.pitch)
     ctx.label('heading_near_180' if abs(abs(p.heading) - 180) < 3 else 'heading_generic',
-              'lon_near_180' if abs(abs(p.lon) - 180) < 0.01 else 'lon_generic')
+              'lon_near_180' if abs(abs(p.lon) - 180) < 0.01 else 'lon_generic',
+              'error_labels=' + ['canonical', 'reversed', 'permuted'][hash_int(case) % 3])
     tanl = abs(np.tan(np.radians(p.lat)))
     for s in (1.0, 0.1, 0.01):
         e = pd.Series(d * s, index=ERR)
-        q = ctx.sut(sim.perturb_pva, p, e)
+        # the error is a LABELLED series: its entries may come in any order (and the state's too)
+        lay = int(abs(hash_int(case)) % 3)
+        e_arg = e if lay == 0 else e.iloc[::-1] if lay == 1 else e[list(np.random.RandomState(abs(hash_int(case)) % 10 ** 6).permutation(ERR))]
+        q = ctx.sut(sim.perturb_pva, p, e_arg)
         diff = ctx.sut(transform.compute_state_difference, q, p)
         ctx.check(isinstance(diff, pd.Series) and list(diff.index) == ERR, 'series_schema', lambda: f'{type(diff)} {list(diff.index)}')
         r = diff.values.astype(float) - e.values
